@@ -38,6 +38,7 @@ import subprocess
 import time
 import unicodedata
 import warnings
+import zlib
 
 from .. import core, tla
 
@@ -50,6 +51,7 @@ TIERS = {
         abstract=[dict(name='M7', M=7, ctor=2, maxT=7, windows=[1, 65, 0xD7FD, MAXU1 + 1 - 7])],
         unique_M=5,
         closure_depth=2,
+        closure_max=1500,
         costly_mod=30011,
         cc=dict(M=6, W=[65, MAXU1 + 1 - 6], depth=4, max_states=6000),
         impl=dict(M=6, seqlen=1, ctor=2, maxT=2, demo_M=5),
@@ -61,6 +63,7 @@ TIERS = {
                   dict(name='M10-prim', M=10, ctor=3, maxT=1, windows=[1, 0x2FFF, MAXU1 + 1 - 10])],
         unique_M=6,
         closure_depth=99,
+        closure_max=12000,
         costly_mod=2003,
         cc=dict(M=7, W=[1, 65, MAXU1 + 1 - 7], depth=6, max_states=40000),
         impl=dict(M=7, seqlen=1, ctor=2, maxT=2, demo_M=6),
@@ -101,6 +104,11 @@ class Win:
 
     def width(self, p: int) -> int:
         return self.R(p + 1) - self.R(p)
+
+
+def stable_hash(*xs) -> int:
+    """deterministic across runs (str hashes are salted per process)"""
+    return zlib.crc32(repr(xs).encode())
 
 
 def wide_of(W: int, M: int) -> frozenset:
@@ -420,7 +428,7 @@ def us_worker(job):
                 if reduced and len(T) > 2:
                     continue
                 if costly(win, action, S, T):
-                    if (hash((W, sid, action, tuple(sorted(T)))) + seed) % G.get('costly_mod', 1499):
+                    if (stable_hash(W, sorted(S), action, sorted(T)) + seed) % G.get('costly_mod', 1499):
                         stats['skipped_costly'] += 1
                         continue
             elif reduced and action in ('Assign', 'BadArg'):
@@ -432,7 +440,7 @@ def us_worker(job):
             edge_ok = True
             for form in forms:
                 if form == 'difference' and sum(win.width(p) for p in args[0] & win.wide) > 4096 \
-                        and (hash((W, sid, tuple(sorted(args[0])))) + seed) % G.get('costly_mod', 1499):
+                        and (stable_hash(W, sorted(S), sorted(args[0])) + seed) % G.get('costly_mod', 1499):
                     stats['skipped_costly'] += 1      # difference(UnicodeSubset) walks every int of the argument
                     continue
                 try:
@@ -643,7 +651,7 @@ def cc_worker(job):
             if action == 'Isub' and (len(args[0] - win.wide) > 3 or (args[0] & win.wide and not win.wide <= args[0])):
                 continue
             if has_wide_piece(neg) or (action == 'Complement' and has_wide_piece(pos) and
-                                       (hash((pos, neg)) + W) % 61):
+                                       stable_hash(pos, neg, W) % 61):
                 stats['skipped_costly'] = stats.get('skipped_costly', 0) + 1
                 continue
             S2 = states[dst][0]
@@ -697,11 +705,18 @@ def load_abstract(path: str, M: int) -> dict:
         if a in ('AddRange', 'DiscardRange'):
             args = (args[0], args[1])
         out[s].append((d, a, args))
+    for es in out.values():      # TLC writes edges in worker order: make the replay order deterministic
+        es.sort(key=lambda e: (e[1], repr(tuple(sorted(a) if isinstance(a, frozenset) else a for a in e[2]))))
     canon_of = {S: rep for (S, rep) in states.values()}
     if len(canon_of) != 2 ** M or len(states) != 2 ** M:
         raise tla.MachineryError(f'CodePointSet graph has {len(states)} states, expected {2 ** M}')
     if len(g.init) != 1:
         raise tla.MachineryError('CodePointSet graph: expected one initial state')
+    fired = {a for _, _, a, _ in g.edges}
+    missing = {'AddCp', 'AddRange', 'DiscardCp', 'DiscardRange', 'Update', 'DiffUpdate', 'Ior', 'Isub', 'Iand', 'Ixor',
+               'Complement', 'Clear', 'BadArg'} - fired
+    if missing:
+        raise tla.MachineryError(f'CodePointSet graph: actions never fired: {sorted(missing)} (vacuous model)')
     return dict(M=M, states=states, out=out, canon_of=canon_of, init=g.init[0], n_edges=len(g.edges))
 
 
@@ -734,7 +749,7 @@ def add_stats(chk: core.Check, stats: dict, prefix: str = '') -> None:
 # binding A: abstract machine -> UnicodeSubset
 
 
-def run_abstract(chk: core.Check, conf: dict, closure_depth: int) -> None:
+def run_abstract(chk: core.Check, conf: dict, closure_depth: int, closure_max: int) -> None:
     M = conf['M']
     by_wide: dict = {}
     for W in conf['windows']:
@@ -755,7 +770,7 @@ def run_abstract(chk: core.Check, conf: dict, closure_depth: int) -> None:
         G['abs'] = gr
         G['canon_of'] = gr['canon_of']
         # phase 1: every transition from every canonical state (object built from TLC's canonical list)
-        units = [(gr['states'][sid][1], sid, True) for sid in gr['states']]
+        units = [(gr['states'][sid][1], sid, True) for sid in sorted(gr['states'], key=lambda x: sorted(gr['states'][x][0]))]
         jobs = []
         for W in windows:
             for ch in core.chunked(units, 24):
@@ -810,11 +825,16 @@ def run_abstract(chk: core.Check, conf: dict, closure_depth: int) -> None:
         # small argument sets), as long as the object still denotes the abstract state
         depth = 0
         n_real = 0
+        dropped = 0
+        budget = {W: closure_max for W in windows}
         while any(frontier.values()) and depth < closure_depth:
             depth += 1
             jobs = []
             for W in windows:
-                fr = sorted(frontier[W])
+                fr = sorted(frontier[W], key=repr)
+                dropped += max(0, len(fr) - budget[W])
+                fr = fr[:budget[W]]
+                budget[W] -= len(fr)
                 n_real += len(fr)
                 frontier[W] = set()
                 for ch in core.chunked([(raw, sid, False) for raw, sid in fr], 16):
@@ -828,8 +848,9 @@ def run_abstract(chk: core.Check, conf: dict, closure_depth: int) -> None:
                         seen[job[0]].add(ns)
                         frontier[job[0]].add(ns)
         chk.add('noncanonical_real_states_explored', n_real)
-        if any(frontier.values()):
-            chk.coverage['noncanonical_closure_truncated_at_depth'] = depth
+        if any(frontier.values()) or dropped:
+            chk.coverage.setdefault('noncanonical_closure_truncated', []).append(
+                dict(config=name, depth=depth, unexplored=dropped + sum(len(x) for x in frontier.values())))
         print(f'  {name}: windows={windows} states={r.distinct} edges={gr["n_edges"]} tlc={r.wall_s:.1f}s '
               f'transitions={tot["transitions"]} evaluations={tot["evaluations"]} histories={nh} '
               f'noncanonical_states={n_real} replay={time.time() - t0:.1f}s', flush=True)
@@ -1433,7 +1454,7 @@ def run(chk: core.Check) -> None:
     chk.coverage['configs'] = core.jsonable({k: v for k, v in conf.items()})
     run_unique(chk, conf['unique_M'])
     for ac in conf['abstract']:
-        run_abstract(chk, ac, conf['closure_depth'])
+        run_abstract(chk, ac, conf['closure_depth'], conf['closure_max'])
     run_cc(chk, conf['cc'])
     run_impl(chk, conf['impl'])
     run_tables(chk, conf)
